@@ -100,7 +100,7 @@ fn replay(path: &str) -> i32 {
     let kind = v.get("kind").and_then(|k| k.as_str()).unwrap_or("");
     let r = match kind {
         "l0" => l0::replay_point(&v),
-        "jcc" => c06::replay(&v),
+        "jcc" | "jcc-context" => c06::replay(&v),
         "l1" => l1::replay(&v),
         "seq" => hist::replay(&v),
         "c10" => c10::replay(&v),
